@@ -70,7 +70,21 @@
 //	      contain, end with or begin with one another: if / oc-if / if-ext / i / iff ..., grouping
 //	      names equal to or containing a prefix, prefixed / own-prefixed / unprefixed uses at the
 //	      top of containers and nested in groupings, decoy local groupings of every name that
-//	      cutting the own prefix out of a reference would leave).
+//	      cutting the own prefix out of a reference would leave); and identity scopes
+//	      (harness/gen/c06ident.go): modules x, y, z define the same identities; module m, its one or
+//	      two submodules and the using module each have an import table of their own over the
+//	      prefixes p, q, r (same prefix bound to different modules in owner and submodule, bound only
+//	      in the submodule, only in the owner, sibling submodules disagreeing, m defining identities
+//	      of the same names itself); every file of m defines a grouping whose leaves refer to
+//	      identities through every prefix of the file - directly, through a typedef of the file or of
+//	      the grouping, behind an identity statement of the file with a foreign base - also in nested
+//	      containers / lists / cases / groupings and through the grouping of another file of m; each
+//	      grouping is used from the owner, the own and the sibling submodule and the other module
+//	      (container, list, rpc input / output, notification). Entry.Type.IdentityBase of every
+//	      leaf of every tree (owning module and name) and the identities derived from it
+//	      (IdentityBase.Values) must be what the import table of the file that WRITES the base gives
+//	      (reference expansion C06Rec.IdBase / IdVals); a quarter of the cases is run again from files
+//	      on disk (viii), two fifths have a mutated variant.
 //
 //	(viii) however the schema was loaded (disk.go): the on-demand family (harness/gen/c06path.go: chains of nested uses
 //	      through 2-4 modules that only import / include statements reach - top uses b:g1, g1 uses c:g2,
@@ -129,6 +143,8 @@ type know struct {
 	// Family "rev": several revisions of the defining module are loaded and the import statements
 	// designate different ones (gen/c06rev.go); the findings then name the clause
 	Family string `json:"family,omitempty"`
+	// corpus cases: hand-written identity bases ("owning module:identity") of selected leaves
+	IdBases []gen.C06Rec `json:"id_bases,omitempty"`
 	// TypeSig: the reference expansion carries kind/range/length of every resolved type (gen/c06scope.go)
 	TypeSig bool `json:"type_sig,omitempty"`
 }
@@ -136,6 +152,9 @@ type know struct {
 // scopeClause / prefixClause are appended to the findings of the families of gen/c06scope.go.
 const scopeClause = " [locally scoped: a type name written inside a grouping denotes the typedef of the nearest enclosing statement of the DEFINING text that declares that name - statements in between that declare only other typedefs are passed over - else the defining module's own top-level typedef; the grouping's own entry and every copy (same module, another module, rpc output, notification, augment body) carry that type, never a same-named typedef of the using scope]"
 const prefixClause = " [locally scoped: a uses under a prefix denotes the grouping of the module the file imports under exactly that prefix; only a reference whose whole prefix equals the file's own prefix (or none) is looked up locally, whatever substring / suffix relation the prefixes and grouping names have; the using node receives a copy of that grouping's nodes]"
+
+// identClause is appended to the findings of the identity-scope family (gen/c06ident.go) and of corpus cases of that family.
+const identClause = " [locally scoped: an identity name written inside a grouping (base of an identityref - directly, in a typedef, or behind an identity statement) resolves in the scope where the grouping is DEFINED: a prefixed base denotes the module that the FILE in which it is written - the submodule itself, not the module it belongs to - imports under exactly that prefix; the grouping's own entry and every copy (owner, own and sibling submodule, another module) carry that identity as Entry.Type.IdentityBase, never the identity another file's import table gives, and no error]"
 
 // revClause is appended to binding / copy findings of a revision family.
 const revClause = " [several revisions of the defining module are loaded: a prefixed uses denotes the grouping of exactly the revision the import statement of its own file designates - revision-date, else the latest loaded revision (RFC 7950 5.1.1); the using node must receive that grouping's nodes, nested uses included]"
@@ -148,6 +167,8 @@ func (k know) clause() string {
 		return scopeClause
 	case "prefix-pools":
 		return prefixClause
+	case "identity-scopes":
+		return identClause
 	}
 	return ""
 }
@@ -520,7 +541,74 @@ func checkCopies(k know, ms *yang.Modules, ix astIndex, f findings, skipTouched 
 	}
 }
 
+// idBaseOf is Entry.Type.IdentityBase of e as "owning module:identity".
+func idBaseOf(e *yang.Entry) string {
+	switch {
+	case e.Type == nil:
+		return "(no type)"
+	case e.Type.IdentityBase == nil:
+		return "(none)"
+	}
+	return lib.IdentityKey(e.Type.IdentityBase)
+}
+
+// idValsOf lists the identities derived from the identity base of e (IdentityBase.Values), sorted keys.
+func idValsOf(e *yang.Entry) []string {
+	var out []string
+	if e.Type == nil || e.Type.IdentityBase == nil {
+		return out
+	}
+	for _, v := range e.Type.IdentityBase.Values {
+		out = append(out, lib.IdentityKey(v))
+	}
+	sort.Strings(out)
+	return out
+}
+
+// checkIdentityBases (identity-scope family): the identity base of every leaf / leaf-list of every
+// tree against the reference expansion, reported by path (the records are compared in full by
+// checkExpansion afterwards).
+func checkIdentityBases(k know, ms *yang.Modules, f findings, skip func(*yang.Module) bool) {
+	want := map[string]string{}
+	vals := map[string][]string{}
+	for _, r := range k.Expect {
+		if r.IdBase != "" {
+			want[r.Path] = r.IdBase
+			vals[r.Path] = r.IdVals
+		}
+	}
+	var walk func(e *yang.Entry)
+	walk = func(e *yang.Entry) {
+		if w, ok := want[e.Path()]; ok && idBaseOf(e) != w {
+			f.add("identity scope: the identity base of %s is %s, the scope where the grouping is defined gives %s%s", e.Path(), idBaseOf(e), w, identClause)
+		} else if ok && strings.Join(idValsOf(e), " ") != strings.Join(vals[e.Path()], " ") {
+			f.add("identity scope: the identities derived from the base %s of %s are %v; resolving the base of every identity statement in the file that holds it gives %v%s",
+				w, e.Path(), idValsOf(e), vals[e.Path()], identClause)
+		}
+		for _, key := range lib.SortedKeys(e.Dir) {
+			walk(e.Dir[key])
+		}
+		if e.RPC != nil {
+			if e.RPC.Input != nil {
+				walk(e.RPC.Input)
+			}
+			if e.RPC.Output != nil {
+				walk(e.RPC.Output)
+			}
+		}
+	}
+	for _, m := range lib.DistinctModules(ms) {
+		if skip != nil && skip(m) {
+			continue
+		}
+		walk(yang.ToEntry(m))
+	}
+}
+
 func checkExpansion(k know, ms *yang.Modules, f findings, skip func(*yang.Module) bool) {
+	if k.Family == "identity-scopes" {
+		checkIdentityBases(k, ms, f, skip)
+	}
 	var got []gen.C06Rec
 	var walk func(e *yang.Entry)
 	walk = func(e *yang.Entry) {
@@ -536,6 +624,9 @@ func checkExpansion(k know, ms *yang.Modules, f findings, skip func(*yang.Module
 			}
 			if e.Type.IdentityBase != nil {
 				r.IdBase = lib.IdentityKey(e.Type.IdentityBase)
+				if k.Family == "identity-scopes" {
+					r.IdVals = idValsOf(e)
+				}
 			}
 		}
 		r.Extra, r.Exts = extrasOf(e)
@@ -959,6 +1050,20 @@ func checkExtrasLaw(k know, ms *yang.Modules, ix astIndex, f findings, skipTouch
 func checkCorpus(k know, ms *yang.Modules, ix astIndex, f findings) {
 	checkSharing(ms, ix, f)
 	checkAugNamespaces(k, ms, f)
+	for _, want := range k.IdBases {
+		var e *yang.Entry
+		parts := strings.Split(strings.TrimPrefix(want.Path, "/"), "/")
+		if len(parts) > 0 {
+			e = entryAt(moduleTree(ms, parts[0]), parts[1:])
+		}
+		got := "(no such leaf)"
+		if e != nil {
+			got = idBaseOf(e)
+		}
+		if got != want.IdBase {
+			f.add("identity scope: the identity base of %s is %s, the scope where the grouping is defined gives %s%s", want.Path, got, want.IdBase, identClause)
+		}
+	}
 	for _, want := range k.ExpectExtras {
 		var e *yang.Entry
 		parts := strings.Split(strings.TrimPrefix(want.Path, "/"), "/")
@@ -1235,6 +1340,8 @@ func main() {
 				OldRev     *gen.C06OldRev `json:"old_rev"`
 				// "rev": a revision family (findings name the clause)
 				Family string `json:"family"`
+				// expected Entry.Type.IdentityBase ("owning module:identity") of the leaves named by path
+				IdBases []gen.C06Rec `json:"id_bases"`
 				// (viii) on-demand runs: per entry only the roots are handed over, the other texts lie on the search path
 				Disk []diskVariant `json:"disk"`
 			}
@@ -1242,7 +1349,7 @@ func main() {
 				lib.Fatal("corpus file %s: %v", p, err)
 			}
 			kn := know{Variant: "corpus", ExpectExtras: cc.ExpectExtras, Uses: cc.Uses, AugNodes: cc.AugNodes, Sites: cc.Sites,
-				PreConvert: cc.PreConvert, OldRev: cc.OldRev, Family: cc.Family}
+				PreConvert: cc.PreConvert, OldRev: cc.OldRev, Family: cc.Family, IdBases: cc.IdBases}
 			if cc.Variant == "mut" {
 				kn = know{Variant: "mut", Sites: cc.Sites, BaseNames: cc.BaseNames, BaseTexts: cc.BaseTexts, Uses: cc.Uses, AugNodes: cc.AugNodes}
 			}
@@ -1431,12 +1538,19 @@ func main() {
 		if f.Thorough() {
 			nscope = 12000
 		}
+		// the identity-scope family (gen/c06ident.go) follows the two older ones (whose indices stay what they were)
+		nident := 160
+		if f.Thorough() {
+			nident = 4000
+		}
 		var cases []rescorr.Case
 		var clauses []string
-		for i := 0; i < nscope; i++ {
+		for i := 0; i < nscope+nident; i++ {
 			var gc *gen.C06Case
 			var info gen.C06ScopeInfo
-			if i%2 == 0 {
+			if i >= nscope {
+				gc, info = gen.C06ScopeIdentities(f.Rand(60000000+i), i-nscope)
+			} else if i%2 == 0 {
 				gc, info = gen.C06ScopeTypedefs(f.Rand(60000000+i), i/2)
 			} else {
 				gc, info = gen.C06ScopePrefixes(f.Rand(60000000+i), i/2)
@@ -1451,7 +1565,11 @@ func main() {
 			}
 			kb, _ := json.Marshal(know{Variant: "base", Family: info.Family, TypeSig: info.Family == "typedef-scopes", Uses: gc.Uses, Sites: gc.Sites,
 				Expect: gc.Expect, Late: gc.Late, AugNodes: baseAug, PreConvert: i%4 < 2})
-			cases = append(cases, rescorr.Case{Names: gc.Names, Texts: gc.Texts, Extra: map[string]string{"c06": string(kb), "origin": origin}})
+			bextra := map[string]string{"c06": string(kb), "origin": origin}
+			if info.Family == "identity-scopes" && i%4 == 0 {
+				bextra["c06_disk_auto"] = strconv.Itoa(i) // (viii): again from files on disk, root modules only
+			}
+			cases = append(cases, rescorr.Case{Names: gc.Names, Texts: gc.Texts, Extra: bextra})
 			clauses = append(clauses, clause)
 			if gc.MutTexts != nil {
 				km, _ := json.Marshal(know{Variant: "mut", Family: info.Family, Uses: gc.Uses, Sites: gc.Sites, BaseNames: gc.Names, BaseTexts: gc.Texts,
@@ -1469,7 +1587,23 @@ func main() {
 			}
 			d("cases", 1)
 			b("with_submodule", info.Submodule)
-			if info.Family == "typedef-scopes" {
+			if info.Family == "identity-scopes" {
+				d("import_tables_"+info.IdShape, 1)
+				d("identity_references", info.IdRefs)
+				d("...unprefixed_or_under_the_own_prefix", info.IdOwnRefs)
+				d("...through_an_import_prefix_of_the_file", info.IdForeignRefs)
+				d("...in_a_submodule_whose_owner_binds_the_prefix_to_another_module", info.IdDifferRefs)
+				d("...in_a_submodule_whose_owner_does_not_bind_the_prefix", info.IdSubOnlyRefs)
+				d("...in_the_module_with_a_submodule_binding_the_prefix_differently", info.IdOwnerRefsSubDiffers)
+				d("references_through_a_typedef", info.IdTypedefRefs)
+				d("references_through_an_identity_statement_with_that_base", info.IdIdentityBases)
+				d("defining_modules_with_identities_in_a_submodule", info.IdInSubmodule)
+				d("pool_identities_also_defined_by_the_using_module", info.IdOwnDefined)
+				d("groupings_using_another_files_grouping", info.IdCrossFileUses)
+				for _, sk := range info.SiteKinds {
+					d("site_"+sk, 1)
+				}
+			} else if info.Family == "typedef-scopes" {
 				scopeDist[fmt.Sprintf("%s: cases_with_%d_nested_typedef_scope_levels", info.Family, info.Levels)]++
 				d("statements_inside_groupings_declaring_typedefs", info.TypedefScopes)
 				d("type_references_inside_groupings", info.Refs)
@@ -1728,12 +1862,12 @@ func main() {
 	}
 	res.Evaluations = total
 	res.DistinctNontrivial = distinct.Len()
-	res.Rule = "corpus/C06 (witnesses of D62 and of the seeded changes C06-c1, C06-d2, C06-e1, C06-g2, C06-k22, C06-l21, C06-l22, C06-m21), then a deterministic family of deep chains g0 uses g1 ... uses gN (N up to 200 quick, 300 thorough; " +
+	res.Rule = "corpus/C06 (witnesses of D62 and of the seeded changes C06-c1, C06-d2, C06-e1, C06-g2, C06-k22, C06-l21, C06-l22, C06-m21, C06-n21), then a deterministic family of deep chains g0 uses g1 ... uses gN (N up to 200 quick, 300 thorough; " +
 		"top-down / bottom-up / shuffled; one module / submodules / imported modules / alternating; five kinds of instantiation site), then revision families (harness/gen/c06rev.go: 2-3 loaded revisions of the defining module with differing same-named groupings, " +
 		"importers designating different revisions by revision-date in different modules / one module under two prefixes / a submodule against its module / through another importer's grouping, next to imports without revision-date; " +
 		"144 systematic cases = 6 ordered pairs of designations x 24 load orders, then seeded ones in shuffled load order), then the scope families (harness/gen/c06scope.go: typedef scopes nested 2-4 levels inside groupings with per-level subsets of a three-name typedef pool, " +
 		"references from every level to every visible level, decoy typedefs in the using scopes, sites in the same module / another module / rpc input and output / notification / list / wrapping grouping / augment body, the resolved type's kind/range/length compared per node; " +
-		"prefix pools: own and import prefixes that contain / end with / begin with one another, grouping names equal to or containing a prefix, decoy local groupings of every spliced name), then the on-demand family (harness/gen/c06path.go: a handed-over module uses b:g1, g1 uses c:g2 ... through 2-4 modules that only import / include statements reach, levels in distinct modules or zigzag between two, " +
+		"prefix pools: own and import prefixes that contain / end with / begin with one another, grouping names equal to or containing a prefix, decoy local groupings of every spliced name; identity scopes (harness/gen/c06ident.go): a module and its submodules with import tables that bind the same prefixes to different modules defining the same identities, or bind a prefix in one file only, groupings of every file referring to identities through every prefix of the file directly / through typedefs / behind identity statements with a foreign base, used from the owner, own and sibling submodules and another module, identity base and derived identities compared per node), then the on-demand family (harness/gen/c06path.go: a handed-over module uses b:g1, g1 uses c:g2 ... through 2-4 modules that only import / include statements reach, levels in distinct modules or zigzag between two, " +
 		"groupings at module level or in a submodule that carries the next import itself, hops through an unprefixed grouping of an own submodule, imports as a line / every file importing every module / with back imports, typedefs beside each grouping, sites of their own in the modules found on demand, " +
 		"optionally a second handed-over module using a grouping from the middle; each case all-explicit against the model and per root set from files on disk: layouts flat / dir/... / two directories / Read's own directory, roots by Parse or Read(path); " +
 		"oracle: same outcome as all-explicit, binding, copies, reference expansion, sharing, late use), the same files-on-disk re-run on every multi-file deep chain (only module a handed over), on a fifth of the seeded base variants and a tenth of the mutated ones (roots picked by the worker: fewest modules that reach every file), then seeded grouping-heavy module sets (harness/gen/c06.go: 1-3 modules, 0-3 submodules each with include chains, groupings at " +
